@@ -1,3 +1,4 @@
+#![allow(dead_code, unused_assignments)]
 mod driver;
 mod entropy;
 mod faults;
